@@ -4,7 +4,7 @@
 suite, runs the listed quick checks against it (VERIF_REPO=<scratch>,
 VERIF_OUT=<scratch out>) and expects exit 1 with a VIOLATION line.
 
-  tools/mutants.py [-j N] [--only substr] [--dirs mutants seeded] [--no-suite]
+  tools/mutants.py [-j N] [--only substr[,substr,=exactname...]] [--dirs mutants seeded] [--no-suite]
 
 Writes mutants/RESULTS.json and prints a table. Scratch trees live under
 /tmp/verif-mut and are removed as soon as each mutant is done."""
@@ -68,7 +68,7 @@ def main():
             continue
         for n in sorted(os.listdir(base)):
             p = os.path.join(base, n)
-            if os.path.isfile(os.path.join(p, "patch.diff")) and os.path.isfile(os.path.join(p, "meta.json")) and args.only in p:
+            if os.path.isfile(os.path.join(p, "patch.diff")) and os.path.isfile(os.path.join(p, "meta.json")) and (not args.only or any((n == o[1:]) if o.startswith("=") else (o in p) for o in args.only.split(",") if o)):
                 mdirs.append(p)
     results = []
     with cf.ThreadPoolExecutor(max_workers=args.j) as ex:
